@@ -99,9 +99,30 @@ def run_driver(binary, test, env=None, timeout=3600, cwd=None, ok_rc=(0,)):
     return out
 
 
-def run_driver_sharded(binary, test, inputs, trace, shards=12, env=None, timeout=3600):
+CRASHES = []
+
+
+def _repo_panic(msg):
+    """A Go panic whose goroutine was running code of the repository under test (not the harness)? -> its top repo frame."""
+    if "panic:" not in msg:
+        return None
+    m = re.search(r"panic: (.*)", msg)
+    what = m.group(1).strip() if m else "panic"
+    tail = msg[msg.index("panic:"):]
+    first = tail.split("\n\ngoroutine", 1)[0] + "\n" + (tail.split("\n\ngoroutine", 2)[1] if tail.count("\n\ngoroutine") else "")
+    frames = re.findall(r"^((?:github\.com/projecteru2/core/|verif/harness/).+?)\([^()]*\)$", first, re.M)
+    frames = [f for f in frames if not f.startswith("github.com/projecteru2/core/utils.SentryGo")]
+    if frames and frames[0].startswith("github.com/projecteru2/core/"):
+        return what, frames[0]
+    return None
+
+
+def run_driver_sharded(binary, test, inputs, trace, shards=12, env=None, timeout=3600, crash_property=None):
     """Run a single-worker driver as `shards` parallel processes over a round-robin split of the
-    input file (each process has its own embedded etcd / miniredis); traces are concatenated."""
+    input file (each process has its own embedded etcd / miniredis); traces are concatenated.
+    crash_property: the property that says the operation always finishes. When the driver PROCESS dies of a panic raised
+    in a goroutine of the code under test (nothing the driver could recover), the input that was running is recorded in
+    CRASHES (-> a violation of that property, with the stack) and the shard goes on with the inputs after it."""
     from concurrent.futures import ThreadPoolExecutor
     lines = read_lines(inputs)
     shards = max(1, min(shards, len(lines)))
@@ -115,7 +136,38 @@ def run_driver_sharded(binary, test, inputs, trace, shards=12, env=None, timeout
     def one(pt):
         e = dict(env or {})
         e.update({"VERIF_INPUTS": pt[0], "VERIF_TRACE": pt[1]})
-        return run_driver(binary, test, env=e, timeout=timeout)
+        if not crash_property:
+            return run_driver(binary, test, env=e, timeout=timeout)
+        e["VERIF_CRASHFILE"] = pt[1] + ".current"
+        outs, kept = [], []
+        for attempt in range(4):
+            try:
+                outs.append(run_driver(binary, test, env=e, timeout=timeout))
+                break
+            except Broken as b:
+                hit = _repo_panic(str(b))
+                if not hit or not os.path.exists(e["VERIF_CRASHFILE"]):
+                    raise
+                cur = open(e["VERIF_CRASHFILE"]).read().strip()
+                CRASHES.append({"property": crash_property, "sig": "process-crashed/" + hit[1].split("/")[-1], "line": 0, "panic": hit[0],
+                                "input": cur, "stack": str(b)[str(b).index("panic:"):][:3000]})
+                log("driver %s: process crashed in %s (%s); continuing after the crashing input" % (test, hit[1], hit[0]))
+                if os.path.exists(pt[1]):
+                    kept.append(open(pt[1]).read())
+                if attempt == 3:     # the violation is established several times over: the rest of this shard is not run
+                    open(pt[1], "w").close()
+                    break
+                rest = read_lines(pt[0])
+                idx = rest.index(cur) if cur in rest else len(rest) - 1
+                with open(pt[0], "w") as f:
+                    f.write("\n".join(rest[idx + 1:]) + "\n")
+        if kept:
+            last = open(pt[1]).read() if os.path.exists(pt[1]) else ""
+            with open(pt[1], "w") as f:
+                f.write("".join(x if x.endswith("\n") or not x else x.rsplit("\n", 1)[0] + "\n" for x in kept) + last)
+        if os.path.exists(e["VERIF_CRASHFILE"]):
+            os.remove(e["VERIF_CRASHFILE"])
+        return "\n".join(outs)
     try:
         with ThreadPoolExecutor(max_workers=shards) as ex:
             outs = list(ex.map(one, parts))
